@@ -915,6 +915,15 @@ func emitGuards(w *bytes.Buffer, pi *pkgInfo, repo, prefix, name string) int {
 		fmt.Fprintf(w, "Definition %s_atoms : list string := [%s]%%string.\n\n", nm, strings.Join(q, "; "))
 		n++
 	}
+	tagged := map[*ast.CaseClause]bool{}
+	ast.Inspect(fd.Body, func(nd ast.Node) bool {
+		if sw, ok := nd.(*ast.SwitchStmt); ok && sw.Tag != nil {
+			for _, cs := range sw.Body.List {
+				tagged[cs.(*ast.CaseClause)] = true
+			}
+		}
+		return true
+	})
 	ast.Inspect(fd.Body, func(nd ast.Node) bool {
 		switch x := nd.(type) {
 		case *ast.FuncLit:
@@ -923,6 +932,9 @@ func emitGuards(w *bytes.Buffer, pi *pkgInfo, repo, prefix, name string) int {
 			emitForced("if", x.Cond, "if")
 		case *ast.CaseClause:
 			for _, e := range x.List {
+				if tagged[x] {
+					break
+				}
 				if ty, ok := basicOf(pi.info.TypeOf(e)); ok && ty.name == "bool" {
 					emitForced("case", e, "case")
 				} else {
@@ -938,6 +950,26 @@ func emitGuards(w *bytes.Buffer, pi *pkgInfo, repo, prefix, name string) int {
 					if id, ok := as.Lhs[i].(*ast.Ident); ok && !hasOperator(r) {
 						emitForced("forinit", r, "forinit_"+id.Name)
 					}
+				}
+			}
+		case *ast.SwitchStmt:
+			// tagged switch over an integer / boolean: every arm is the test  tag == value
+			if x.Tag != nil {
+				if _, ok := basicOf(pi.info.TypeOf(x.Tag)); ok {
+					for _, cs := range x.Body.List {
+						for _, v := range cs.(*ast.CaseClause).List {
+							be := &ast.BinaryExpr{X: x.Tag, Op: token.EQL, Y: v, OpPos: v.Pos()}
+							pi.info.Types[be] = types.TypeAndValue{Type: types.Typ[types.Bool]}
+							emitAt("case", be, "case", v.Pos(), true)
+						}
+					}
+				}
+			}
+		case *ast.CallExpr:
+			// arithmetic inside call arguments (commitKey(height-1), f(x.maxIndex+1) ...)
+			if tv, ok := pi.info.Types[x.Fun]; !ok || !tv.IsType() {
+				for _, a := range x.Args {
+					emit("arg", a, "arg")
 				}
 			}
 		case *ast.IncDecStmt:
